@@ -103,7 +103,7 @@ func vtC03QuotaObj(id, parent int64, lend bool, decl [3]bool, a []int64) *v1alph
 func vtC03Pod(id, quota int64, np bool, req []int64, bound bool) *corev1.Pod {
 	rl := corev1.ResourceList{}
 	for d := 0; d < 3; d++ {
-		if req[d] != 0 {
+		if req[d] >= 0 { // -1: the pod has no such key; 0 is an explicit zero request
 			rl[vtC03Dims[d]] = vtC03Qty(d, req[d])
 		}
 	}
@@ -185,7 +185,16 @@ func vtC03Exec(in []int64) []int64 {
 			pod := vtC03Pod(a[0], a[1], a[2] != 0, a[3:6], rec[0] == 8)
 			pods[a[0]] = pod
 			pl.OnPodAdd(pod)
-		case 4: // Attempt
+		case 10: // Reserve alone (the PreFilter of this cycle was an earlier operation)
+			pod, ok := pods[a[0]]
+			if !ok {
+				status = -1
+				break
+			}
+			if rs := pl.Reserve(ctx, framework.NewCycleState(), pod, "n1"); !rs.IsSuccess() {
+				status = 2
+			}
+		case 4, 9: // Attempt = PreFilter then Reserve on success; Check = PreFilter alone
 			pod, ok := pods[a[0]]
 			if !ok {
 				status = -1
@@ -222,7 +231,7 @@ func vtC03Exec(in []int64) []int64 {
 				nl++
 				cur = q.parent
 			}
-			if st.IsSuccess() {
+			if st.IsSuccess() && rec[0] == 4 {
 				if rs := pl.Reserve(ctx, cs, pod, "n1"); !rs.IsSuccess() {
 					status = 2
 				}
@@ -452,10 +461,13 @@ func vtC03Gen(r *rand.Rand, i int) (string, []int64) {
 			if r.Intn(20) == 0 {
 				code = 8
 			}
-			var req [3]int64
+			req := [3]int64{-1, -1, -1}
 			for d := 0; d < 3; d++ {
 				if r.Intn(4) != 0 && (q.decl[d] || r.Intn(3) == 0) {
 					req[d] = unit()
+					if req[d] == 0 && r.Intn(2) == 0 {
+						req[d] = -1 // mostly leave the key out instead of an explicit zero
+					}
 				}
 			}
 			id := nextP
@@ -464,8 +476,53 @@ func vtC03Gen(r *rand.Rand, i int) (string, []int64) {
 			if qid == q.id {
 				ps = append(ps, gpod{id, qid})
 			}
-		case c < 62:
+		case c < 54:
 			emit(4, pickPod())
+		case c < 62: // a cycle whose Reserve comes a few informer events after its PreFilter
+			id := pickPod()
+			emit(9, id)
+			for k := r.Intn(3); k > 0 && len(ops) < n; k-- {
+				switch r.Intn(5) {
+				case 0:
+					capacity()
+				case 1:
+					emit(5, pickPod())
+				case 2:
+					if len(qs) > 0 { // raise a max
+						q := qs[r.Intn(len(qs))]
+						mx, mn, w := quotaVals(q.decl)
+						for d := 0; d < 3; d++ {
+							if q.decl[d] && mx[d] < q.max[d] {
+								mx[d] = q.max[d] + int64(r.Intn(3))
+							}
+							if mn[d] > mx[d] {
+								mn[d] = mx[d]
+							}
+						}
+						q.max = mx
+						emit(2, q.id, 0, 0, 0, 0, 0, mx[0], mx[1], mx[2], mn[0], mn[1], mn[2], w[0], w[1], w[2])
+					}
+				case 3:
+					if other := pickPod(); other != id {
+						emit(6, other)
+						for k := range ps {
+							if ps[k].id == other {
+								ps = append(ps[:k], ps[k+1:]...)
+								break
+							}
+						}
+					}
+				default:
+					if r.Intn(6) == 0 {
+						emit(4, pickPod()) // another cycle in between: the bare Reserve below is then out of discipline
+					}
+				}
+			}
+			if r.Intn(8) != 0 {
+				emit(10, id)
+			} else {
+				emit(10, pickPod())
+			}
 		case c < 72:
 			emit(5, pickPod())
 		case c < 80:
